@@ -167,6 +167,7 @@ Example C16_example_set :
      = PErr (tx "ERR XX and NX options at the same time are not compatible")
   /\ parse_cmd [tx "set"] = PErr (tx "SET requires at least 2 arguments").
 Proof. repeat split; vm_compute; reflexivity. Qed.
+Print Assumptions C16_example_set.
 
 Example C16_example_numbers_and_names :
   parse_cmd [tx "scan"; tx "18446744073709551616"] = PErr (tx "number too large to fit in target type")
@@ -183,3 +184,4 @@ Example C16_example_numbers_and_names :
   /\ lua_to_resp (resp_to_lua (RArr (Some [RSimple_ (tx "OK"); RInt 7; RArr (Some [RBulk (Some [0%N])])])))
      = RArr (Some [RSimple_ (tx "OK"); RInt 7; RArr (Some [RBulk (Some [0%N])])]).
 Proof. repeat split; vm_compute; reflexivity. Qed.
+Print Assumptions C16_example_numbers_and_names.
